@@ -48,6 +48,9 @@ class Rule:
         self.ctx.constructs.add((self.id, construct))
 
     def violation(self, construct: str, message: str, file: str = "", line: int = 0, path: Optional[list] = None) -> None:
+        if (self.id, construct) in self.ctx.violated:
+            return  # one report per (rule, construct)
+        self.ctx.violated.add((self.id, construct))
         self.examined += 1
         self.bad += 1
         f = Finding(self.ctx.prop, self.id, construct, message, file, line, path or [])
@@ -79,6 +82,7 @@ class Ctx:
         self.rules: list[Rule] = []
         self.findings: list[Finding] = []
         self.constructs: set[tuple[str, str]] = set()
+        self.violated: set[tuple[str, str]] = set()
         self.assumptions: list[str] = []
         self.extra: dict[str, Any] = {}
         self.unresolved: list[str] = []
